@@ -503,6 +503,7 @@ def run(ctx):
     # M
     cfg = ctx.pick("MC_DirectSampling_quick.cfg", "MC_DirectSampling_thorough.cfg")
     ctx.model_check("DirectSampling", cfg, must_cover=("GenAngles", "Close", "Intersect"))
+    ctx.model_check("DirectSampling", "MC_DirectSampling_extra2.cfg")   # the other correct table (N+2 angles, closed with angles[0])
     ctx.model_check("DirectSampling", "MC_DirectSampling_extra1.cfg", expect_violation="NoSelfMeet")
     ctx.model_check("DirectSampling", "MC_DirectSampling_extra1b.cfg", expect_violation="FullCircleOnce")
     ctx.model_check("DirectSampling", "MC_DirectSampling_shift.cfg", expect_violation="AllAdjacent")
